@@ -38,12 +38,14 @@ REQUIRED_COUNTERS = {
               "samples_columns_checked": 2500, "gradient_value_checked": 2200, "fd_jacobian_columns": 2000,
               "gradient_vs_fd_of_real_forward": 2200, "geometry_gradient_input_checked": 1300,
               "gradient_refusal_observed": 6500, "dist_rename_checked": 20, "dist_forward_checked": 80,
-              "forward_history_checked": 9000, "gradient_history_checked": 5500, "input_unchanged_checked": 15000},
+              "forward_history_checked": 9000, "gradient_history_checked": 5500, "input_unchanged_checked": 15000,
+              "reuse_after_error_checked": 5000},
     "thorough": {"forward_value_checked": 150000, "forward_wrap_checked": 160000, "callable_input_checked": 120000,
-                 "samples_columns_checked": 45000, "gradient_value_checked": 50000, "fd_jacobian_columns": 50000,
-                 "gradient_vs_fd_of_real_forward": 50000, "geometry_gradient_input_checked": 30000,
-                 "gradient_refusal_observed": 150000, "dist_rename_checked": 250, "dist_forward_checked": 1000,
-                 "forward_history_checked": 110000, "gradient_history_checked": 70000, "input_unchanged_checked": 190000},
+                 "samples_columns_checked": 45000, "gradient_value_checked": 30000, "fd_jacobian_columns": 50000,
+                 "gradient_vs_fd_of_real_forward": 30000, "geometry_gradient_input_checked": 18000,
+                 "gradient_refusal_observed": 150000, "dist_rename_checked": 120, "dist_forward_checked": 500,
+                 "forward_history_checked": 110000, "gradient_history_checked": 50000, "input_unchanged_checked": 190000,
+                 "reuse_after_error_checked": 35000},
 }
 BUDGET_S = {"quick": 200.0, "thorough": 1500.0}
 
@@ -180,7 +182,7 @@ def _is2d(t):
 def cases(tier, seed):
     rnd = core.rng_for(seed, PROPERTY, "cases", tier)
     thorough = tier == "thorough"
-    reps = 1 if tier == "quick" else 12
+    reps = 1 if tier == "quick" else 6
     d1, d2 = _dom_templates()
     r1, r2 = _ran_templates()
     out = []
@@ -976,6 +978,20 @@ def _history_monitor(case, ctx, b, rs, rtol):
             mutate(False)
             check_forward(cname, get, flag, k + 1, "mixed_loop")
             check_gradient(cname, get, flag, k + 1, "mixed_loop", 1.0)
+    # error path followed by re-use: calls that fail (wrong size, Samples as linearisation point, NaN input) must leave the
+    # model usable and unchanged; the outcome of the failing calls themselves is not judged here
+    mutate(True)
+    for bad_call in (lambda: model.forward(np.ones(npar + 3)), lambda: model.gradient(d, Samples(np.column_stack([x, x]))),
+                     lambda: model.forward(np.full(npar, np.nan)), lambda: model.gradient(np.ones(ref.ran.par_dim + 2), x),
+                     lambda: model.forward(**{"no_such_argument": x})):
+        try:
+            bad_call()
+        except Exception:  # noqa
+            pass
+        ctx.count("reuse_after_error_checked")
+        check_forward("same_ndarray", lambda: x, True, 1, "after_error")
+        if grad_nd_ok:
+            check_gradient("same_ndarray", lambda: x, True, 1, "after_error", 1.0)
     # forward on a sample collection leaves the collection untouched
     P = rs.uniform(lo, hi, size=(npar, 2))
     S = Samples(P, geometry=dom_g)
